@@ -82,26 +82,33 @@ Proof. vm_compute. reflexivity. Qed.
 Theorem filesz_bonus_subset : forallb (fun kt => memb (snd kt) filesz_try_all) filesz_bonus = true.
 Proof. vm_compute. reflexivity. Qed.
 
-(* reachability: every layout is offered by filesz_to_types, except the recorded one *)
-Definition known_unreachable : list bytes := [s2b "Fs_Netbsd_x8664_Lastlogx"].
-
-Theorem layouts_reachable_except_known :
-  forallb (fun l => memb (l_name l) filesz_try_all || memb (l_name l) known_unreachable)
-          fixedstruct_layouts = true.
+(* reachability: every layout is offered by filesz_to_types (try-all list) and receives the
+   name bonus under some file kind *)
+Theorem layouts_reachable :
+  forallb (fun l => memb (l_name l) filesz_try_all) fixedstruct_layouts = true.
 Proof. vm_compute. reflexivity. Qed.
 
-(* frozen witness of the recorded finding (snapshot of the try-all list at commit deb9a25f):
-   the NetBSD amd64 lastlogx layout is never offered, so such a file cannot be read *)
+Theorem layouts_have_bonus :
+  forallb (fun l => memb (l_name l) (map snd filesz_bonus)) fixedstruct_layouts = true.
+Proof. vm_compute. reflexivity. Qed.
+
+(* regression statement about the OLD try-all list (frozen snapshot of filesz_to_types before
+   commit dd987c74): the NetBSD amd64 lastlogx layout was never offered, so such a file could
+   not be read.  Says nothing about the regenerated table. *)
 Definition try_all_snapshot : list bytes := map s2b
   ["Fs_Freebsd_x8664_Utmpx"; "Fs_Linux_Arm64Aarch64_Lastlog"; "Fs_Linux_Arm64Aarch64_Utmpx";
    "Fs_Linux_x86_Acct"; "Fs_Linux_x86_Acct_v3"; "Fs_Linux_x86_Lastlog"; "Fs_Linux_x86_Utmpx";
    "Fs_Netbsd_x8632_Acct"; "Fs_Netbsd_x8632_Lastlogx"; "Fs_Netbsd_x8632_Utmpx";
    "Fs_Netbsd_x8664_Lastlog"; "Fs_Netbsd_x8664_Utmp"; "Fs_Netbsd_x8664_Utmpx";
    "Fs_Openbsd_x86_Lastlog"; "Fs_Openbsd_x86_Utmp"]%string.
+Definition layout_names_snapshot : list bytes := try_all_snapshot ++ [s2b "Fs_Netbsd_x8664_Lastlogx"].
 
 Theorem layout_reachability_refuted :
-  exists n, In n known_unreachable /\ memb n try_all_snapshot = false.
-Proof. exists (s2b "Fs_Netbsd_x8664_Lastlogx"). split; [left; reflexivity|vm_compute; reflexivity]. Qed.
+  exists n, In n layout_names_snapshot /\ memb n try_all_snapshot = false.
+Proof.
+  exists (s2b "Fs_Netbsd_x8664_Lastlogx"). split; [|vm_compute; reflexivity].
+  unfold layout_names_snapshot. apply in_or_app. right. left. reflexivity.
+Qed.
 
 (* ---- decode_tv reads what an encoder of the same layout writes (example per table row is
    evaluated in the correspondence run; here: a closed example) *)
